@@ -109,6 +109,8 @@ type VC struct {
 	globalsRead map[*ssa.Global]bool
 	inlineDepth int
 	callPreHit  map[int]int
+	transferHit map[int]int
+	tokParams   map[int]string
 	callPost   map[ssa.Instruction]*State
 	epochNext  map[int]string
 	roms       map[string]string // global loc const -> ROM array const (immutable global arrays)
@@ -129,6 +131,7 @@ type loopInfo struct {
 	lc     *LoopContract
 	decOld string
 	auto   []autoInv
+	tokAtHead string
 }
 
 type rangeState struct {
@@ -152,7 +155,7 @@ func newVCMode(prog *Program, fn *ssa.Function, fc *FuncContract, mode, name str
 		exit: map[int]*State{}, structSeen: map[string]bool{}, heapSort: map[string]string{}, heapElem: map[string]types.Type{},
 		strLits: map[string]string{}, typeIDs: map[string]int{}, specUsed: map[string]bool{}, assumptions: map[string]bool{},
 		anchors: map[string]int{}, srcLines: map[string][]string{}, loopOf: map[int]*loopInfo{}, rangeIter: map[ssa.Value]*rangeState{},
-		roms: map[string]string{}, epochNext: map[int]string{}, callPost: map[ssa.Instruction]*State{}, callPreHit: map[int]int{}, pkg: pkg, specInfos: map[string]*specInfo{}, lemmasUsed: map[string]bool{},
+		roms: map[string]string{}, epochNext: map[int]string{}, callPost: map[ssa.Instruction]*State{}, callPreHit: map[int]int{}, transferHit: map[int]int{}, pkg: pkg, specInfos: map[string]*specInfo{}, lemmasUsed: map[string]bool{},
 	}
 }
 
@@ -532,9 +535,39 @@ func (vc *VC) heapWrite(st *State, key string, elem types.Type, idx, val string)
 }
 
 func (vc *VC) havocAll(st *State) {
+	keep := map[string]string{}
+	defer func(e int) {}(st.epoch)
+	for k, v := range st.heap {
+		if k == tokKey || k == freshKey {
+			keep[k] = v
+		}
+		if strings.HasPrefix(k, "#ghost.") {
+			if g, ok := vc.prog.cs.Ghosts[k[len("#ghost."):]]; ok && g.Owned {
+				keep[k] = v
+			}
+		}
+	}
+	// fields written only while their object is constructed: a callee can only initialise objects it
+	// allocates itself (locations that did not exist before), so the heap of such a field is unchanged
+	// on every location that exists now
+	for k, elem := range vc.heapElem {
+		if _, ok := keep[k]; ok || strings.HasPrefix(k, "#") || strings.HasPrefix(k, "[]") || strings.HasPrefix(k, "@") {
+			continue
+		}
+		if vc.prog.fieldImmutable(k) {
+			keep[k] = vc.heapGet(st, k, elem)
+		}
+	}
+	// owned ghosts never read so far keep their entry version
+	for name, g := range vc.prog.cs.Ghosts {
+		k := "#ghost." + name
+		if _, ok := keep[k]; !ok && g.Owned && vc.heapElem[k] != nil {
+			keep[k] = vc.heapGet(st, k, vc.heapElem[k])
+		}
+	}
 	vc.fresh++
 	st.epoch = vc.fresh
-	st.heap = map[string]string{}
+	st.heap = keep
 	old := st.nextId
 	st.nextId = vc.freshConst("nextId", "Int")
 	vc.epochNext[st.epoch] = st.nextId
